@@ -199,9 +199,10 @@ fn relevant_pairs(tool: bool, base: bool, nenv: usize) -> Vec<(usize, usize)> {
 
 /// constructive cases: one or two close pairs at chosen gaps relative to that pair's safety distance
 fn make_case(r: &mut rand::rngs::StdRng, k: usize) -> Case {
-    let tool = k % 4 != 3;
-    let base = k % 5 != 4;
-    let nenv = k % 3;
+    // (the directed family k % 10 == 5 needs every body category to be present)
+    let tool = k % 4 != 3 || k % 10 == 5;
+    let base = k % 5 != 4 || k % 10 == 5;
+    let nenv = if k % 10 == 5 { 1 + k % 2 } else { k % 3 };
     let mut scene = Scene::spread(tool, base, nenv);
     let rel = relevant_pairs(tool, base, nenv);
     let mut table: Vec<(usize, usize, i64)> = Vec::new();
@@ -213,12 +214,18 @@ fn make_case(r: &mut rand::rngs::StdRng, k: usize) -> Case {
     let mut used: Vec<usize> = Vec::new();
     for c in 0..n_close {
         // candidate pairs: relevant ones, but also adjacent links (irrelevant: must never be reported)
-        let (a, b) = if k % 11 == 10 && c == 0 { let i = r.gen_range(0..5); (i, i + 1) } else { *pick(r, &rel) };
+        // directed family (k % 10 == 5): one pair of a chosen category, cycling through all six, incl. tool-base
+        let cats = ["link-link", "link-env", "tool-env", "tool-link", "base-link", "tool-base"];
+        let directed: Vec<(usize, usize)> = if k % 10 == 5 && c == 0 {
+            let want = cats[(k / 10) % 6];
+            rel.iter().cloned().filter(|p| category(&(p.0.min(p.1) as u64, p.0.max(p.1) as u64)) == want).collect()
+        } else { vec![] };
+        let (a, b) = if !directed.is_empty() { *pick(r, &directed) } else if k % 11 == 10 && c == 0 { let i = r.gen_range(0..5); (i, i + 1) } else { *pick(r, &rel) };
         if used.contains(&a) || used.contains(&b) { continue; }
         used.push(a);
         used.push(b);
         // per-pair override?
-        let ov = r.gen_range(0..5);
+        let ov = if !directed.is_empty() { 0 } else { r.gen_range(0..5) };   // directed: NEVER_COLLIDES on the pair
         let key = if r.gen_bool(0.5) { (a, b) } else { (b, a) };
         match ov {
             0 => table.push((key.0, key.1, -1_000_000)),
@@ -254,7 +261,7 @@ fn make_case(r: &mut rand::rngs::StdRng, k: usize) -> Case {
             let (big, tiny) = if scene.boxes[ia].h[0] > 0.1 { (a, b) } else { (b, a) };
             if big < ENV0 { scene.aligned_pair = Some((big, tiny, rm * 0.3)); }
         }
-        let gap = if contained { rm * 0.45 } else { match r.gen_range(0..5) {
+        let gap = if !directed.is_empty() { -0.004 } else if contained { rm * 0.45 } else { match r.gen_range(0..5) {
             0 => -0.004,                 // overlapping
             1 => (rm - 0.005).max(0.002), // inside the safety distance (or just apart for touch-only)
             2 => rm + 0.005,             // just outside
@@ -358,7 +365,14 @@ pub fn record_offsets(output: &str) {
         let two_pi = 2.0 * std::f64::consts::PI;
         // limit representation classes: same arcs written as wrap-around ranges (from > to) on some joints
         if tries % 3 == 1 { for i in 0..6 { if r.gen_bool(0.4) { lim_from[i] += two_pi; } } }
-        let kin = OPWKinematics::new_with_constraints(Parameters::irb2400_10(), Constraints::new(lim_from, lim_to, BY_PREV));
+        let plain = OPWKinematics::new_with_constraints(Parameters::irb2400_10(), Constraints::new(lim_from, lim_to, BY_PREV));
+        // every fourth robot is parallelogram coupled (J2 drives J3): the links behind a moved joint then do NOT move
+        // as one rigid group
+        let coupled = tries % 4 == 3;
+        let kin_box: Box<dyn Kinematics> = if coupled {
+            Box::new(rs_opw_kinematics::parallelogram::Parallelogram { robot: std::sync::Arc::new(plain), scaling: 1.0, driven: 1, coupled: 2 })
+        } else { Box::new(plain) };
+        let kin: &dyn Kinematics = kin_box.as_ref();
         let lo = |i: usize| if lim_from[i] > lim_to[i] { lim_from[i] - two_pi } else { lim_from[i] };
         let mut initial: Joints = std::array::from_fn(|i| r.gen_range(lo(i) * 0.5..lim_to[i] * 0.5));
         // an initial vector that violates the limits in one joint: only replacing THAT joint can give a legal vector
@@ -390,21 +404,21 @@ pub fn record_offsets(output: &str) {
         if tries % 6 == 0 { table.push((0, 2, -1_000_000)); }
         let base_pose = Isometry3::new(nalgebra::Vector3::new(0.0, 0.0, -0.4), nalgebra::Vector3::new(0.0, 0.0, 0.3));
         // the scene is laid out for the candidate vector
-        let body = scene::build(&scene, &kin, &cand, &base_pose, safety_from(&table_json(&table), defaults.0, defaults.1, CheckMode::FirstCollisionOnly));
+        let body = scene::build(&scene, kin, &cand, &base_pose, safety_from(&table_json(&table), defaults.0, defaults.1, CheckMode::FirstCollisionOnly));
         // precondition of the property: the initial vector is collision free (full check, brute force as well)
-        if body.collides(&initial, &kin) { continue; }
+        if body.collides(&initial, kin) { continue; }
         made += 1;
-        let class = format!("{}:{}", category(&(a.min(b) as u64, a.max(b) as u64)), if moved(a) != moved(b) { "moved-vs-unmoved" } else if moved(a) { "both-moved" } else { "both-unmoved" });
+        let class = format!("{}:{}{}", category(&(a.min(b) as u64, a.max(b) as u64)), if moved(a) != moved(b) { "moved-vs-unmoved" } else if moved(a) { "both-moved" } else { "both-unmoved" }, if coupled { ":coupled" } else { "" });
         for &pool in &pools {
-            let offered = guarded(|| in_pool(pool, || body.non_colliding_offsets(&initial, &from, &to, &kin)));
+            let offered = guarded(|| in_pool(pool, || body.non_colliding_offsets(&initial, &from, &to, kin)));
             let mut cands = Vec::new();
             let mut vecs: Vec<Joints> = Vec::new();
             for jj in 0..6 {
                 for (side, tv) in [("from", &from), ("to", &to)] {
                     let mut v = initial;
                     v[jj] = tv[jj];
-                    let coll = body.collides(&v, &kin);
-                    let bf = scene::brute(&body, &kin, &v);
+                    let coll = body.collides(&v, kin);
+                    let bf = scene::brute(&body, kin, &v);
                     cands.push(json!({"j": jj, "side": side, "q": au6(&v), "collides": coll, "min_d": bf.iter().map(|x| x.2).min().unwrap_or(0)}));
                     vecs.push(v);
                 }
